@@ -8,6 +8,17 @@ mod refcodec;
 mod tracefile;
 mod untrusted;
 
+/// seeded pseudo-random 1-in-`every` selection of scenario `n` (a stride would alias with the structure of a TLC-enumerated product)
+pub fn pick(n: u64, every: u64, seed: u64) -> bool {
+    if every <= 1 {
+        return true;
+    }
+    let mut z = n.wrapping_add(seed.wrapping_mul(0x9E3779B97F4A7C15)).wrapping_add(0x9E3779B97F4A7C15);
+    z = (z ^ (z >> 30)).wrapping_mul(0xBF58476D1CE4E5B9);
+    z = (z ^ (z >> 27)).wrapping_mul(0x94D049BB133111EB);
+    (z ^ (z >> 31)) % every == 0
+}
+
 fn main() {
     let args: Vec<String> = std::env::args().collect();
     if args.len() < 2 {
